@@ -25,3 +25,18 @@ Definition model_lines_buffered (stdin : bytes) (o : opt) : rs (option unit * by
 Definition from_utf8 (b : bytes) : option bytes := if Utf8.utf8_valid b then Some b else None.
 Definition strip_suffix_byte (c : byte) (s : bytes) : option bytes :=
   match rev s with x :: r => if N.eqb x c then Some (rev r) else None | [] => None end.
+
+(** [read_utils::read_line_with_eol]: the next line with its terminator, taken off the input; [None] at the end
+    of the input, [Some None] when the line is not valid UTF-8 ([read_line]'s check; [read_until] + [from_utf8]
+    under -z) *)
+Fixpoint take_line (eol : byte) (l : bytes) : bytes * bytes :=
+  match l with
+  | [] => ([], [])
+  | x :: r => if N.eqb x eol then ([x], r) else let '(a, b) := take_line eol r in (x :: a, b)
+  end.
+Definition read_line_eol (eol : byte) (input : bytes) : option (option bytes) * bytes :=
+  match input with
+  | [] => (None, [])
+  | _ => let '(line, rest) := take_line eol input in
+         ((if Utf8.utf8_valid line then Some (Some line) else Some None), rest)
+  end.
